@@ -81,8 +81,8 @@ func shortArgs(args []any) string {
 func TestC11Stateful(t *testing.T) {
 	theT = t
 	col := ev.New("C11", "stateful",
-		"rapid: ownership histories (register at levels 2 and 3, transfer, setAdmin, renew; all by authorised signers) over 6 users; after every step, for every registered name and every role {owner, admin, former owner, former admin, parent owner, parent admin, stranger, committee, nobody} the full matrix of mutating methods {addRecord (name and an unregistered sub-name), setRecord, deleteRecords, updateSOA, renew, transfer, setAdmin, register of a sub-name} is evaluated by test invocation against the authorisation model: forbidden => FAULT (or false without any storage change for transfer), permitted => HALT; registerTLD/setPrice/update need the committee majority n/2+1 (committees of 1, 3 and 4 keys; a single member, n/2 of n and the 2n/3+1 account are refused); level-2 register needs only the new owner's witness; setAdmin needs owner AND new admin; one forbidden attempt per step is also committed and must leave the NNS storage unchanged; non-trivial = the matrix was evaluated in a state with a former owner or former admin and a level-3 name whose parent has a different owner",
-		"all names are unexpired (expiry is C10)", "update's positive case is decided in C16")
+		"rapid: ownership histories (register at levels 2 and 3, transfer, setAdmin, renew; all by authorised signers) over 6 users; after every step, for every registered name and every role {owner, admin, former owner, former admin, parent owner, parent admin, stranger, committee, nobody} the full matrix of mutating methods {addRecord (name and an unregistered sub-name), setRecord, deleteRecords, updateSOA, renew, transfer, setAdmin, register of a sub-name} is evaluated by test invocation against the authorisation model: forbidden => FAULT (or false without any storage change for transfer), permitted => HALT; registerTLD/setPrice/update need the committee majority n/2+1 (committees of 1, 3 and 4 keys; a single member, n/2 of n and the 2n/3+1 account are refused); level-2 register needs only the new owner's witness - also for the take-over of an expired name (stranger, former owner, another user, committee alone refused); setAdmin needs owner AND new admin; one forbidden attempt per step is also committed and must leave the NNS storage unchanged; non-trivial = the matrix was evaluated in a state with a former owner or former admin and a level-3 name whose parent has a different owner",
+		"all names but one (lapsed.com, expired from the start) are unexpired (expiry is C10)", "update's positive case is decided in C16")
 	runRapid(t, col, func(rt *rapid.T, h *ev.History) {
 		n := rapid.SampledFrom([]int{1, 1, 3, 4}).Draw(rt, "n")
 		w := newNnsWorld(n, h)
@@ -106,6 +106,13 @@ func TestC11Stateful(t *testing.T) {
 			return nil
 		}
 		r.opRegisterTLD(committee, 1, "com", hundredYearsSec)
+		// a name whose registration has run out (its TLD lives on): taking it over is a registration like
+		// any other - the owner-to-be must witness, whoever held the name before
+		lapsedOwner := chainkit.NamedUser("c11-lapsed-owner")
+		if o := r.c.Invoke([]neotest.Signer{lapsedOwner}, w.nns, "register", "lapsed.com", lapsedOwner.ScriptHash(), "m@nspcc.io", int64(1), int64(1), int64(1), int64(1)); !o.Halt {
+			panic(chainkit.HarnessError{Msg: "c11: registration of lapsed.com: " + o.Fault})
+		}
+		r.c.AddBlock(5000)
 		formerOwner := map[string][]byte{}
 		formerAdmin := map[string][]byte{}
 		yearSec := int64(365 * 24 * 3600)
@@ -288,6 +295,20 @@ func TestC11Stateful(t *testing.T) {
 			if o := r.c.Call([]neotest.Signer{stranger}, w.nns, "register", free, users[0].ScriptHash(), "m@nspcc.io", int64(1), int64(1), int64(1000), int64(1)); o.Halt {
 				fail("C11: second-level registration on behalf of an owner who did not witness succeeded: %s", o)
 			}
+			// an expired name: the same rule
+			for _, who := range []struct {
+				name    string
+				signers []neotest.Signer
+				ok      bool
+			}{{"a stranger alone", []neotest.Signer{stranger}, false}, {"the former owner alone", []neotest.Signer{lapsedOwner}, false}, {"another user alone", []neotest.Signer{users[1]}, false}, {"the committee alone", w.committee, false},
+				{"the owner-to-be", []neotest.Signer{users[0]}, true}, {"a stranger together with the owner-to-be", []neotest.Signer{stranger, users[0]}, true}} {
+				o := r.c.Call(who.signers, w.nns, "register", "lapsed.com", users[0].ScriptHash(), "m@nspcc.io", int64(1), int64(1), int64(1000), int64(1))
+				b, isb := o.Bool()
+				if got := o.Halt && isb && b; got != who.ok {
+					fail("C11: take-over of the expired name lapsed.com for u0 by %s: expected success=%v, got %s", who.name, who.ok, o)
+				}
+			}
+			h.Mark("expired-name-takeover-matrix")
 			// setAdmin without the new admin's witness
 			for _, nmName := range names {
 				if cn := r.m.names[nmName]; cn != nil {
